@@ -495,6 +495,8 @@ class LibMixin:
                         d[k] = v
             d.update(kwargs)
             return DictV(d, site=self.site(node))
+        if n == "set" and not args:
+            return SetV([], site=self.site(node))
         if n in ("set", "frozenset"):
             return frozenset(self.iterate_concrete(args[0], run, node)) if args else frozenset()
         if n == "range":
@@ -976,6 +978,11 @@ class LibMixin:
             if name in ("items", "keys", "values", "get", "pop", "setdefault", "update", "clear", "copy", "__getitem__",
                         "__contains__", "__setitem__", "popitem"):
                 return BoundV(F(f"dict.{name}"), o)
+        if isinstance(o, SetV):
+            if name in ("add", "discard", "remove", "update", "clear", "pop", "copy", "union", "issubset", "issuperset", "isdisjoint",
+                        "intersection", "difference"):
+                return BoundV(F(f"list.set_{name}"), o)
+            self.limit(f"set method {name!r} is not modelled", node)
         if isinstance(o, ListV):
             if name in ("append", "extend", "pop", "insert", "clear", "copy", "index", "count", "sort", "reverse",
                         "remove", "__getitem__"):
@@ -1115,6 +1122,8 @@ class LibMixin:
         self.limit(f"dict method {name}", node)
 
     def list_method(self, name, l: ListV, a, kw, run, node):
+        if name.startswith("set_"):
+            return self.set_method(name[4:], l, a, kw, run, node)
         if name in ("append", "extend", "pop", "insert", "clear", "sort", "reverse", "remove"):
             run.emit("mutate", l, name, self.site(node))
         if name == "append":
@@ -1145,6 +1154,45 @@ class LibMixin:
                     return i
             self.throw("ValueError", "not in list", node)
         self.limit(f"list method {name}", node)
+
+    def set_method(self, name, l, a, kw, run, node):
+        def has(x):
+            for y in l.items:
+                if y is x:
+                    return True
+                if not is_concrete(x) or not is_concrete(y):
+                    self.limit("set membership of a symbolic element", node)
+                if type(x) is type(y) and x == y or (isinstance(x, (int, float)) and isinstance(y, (int, float)) and x == y):
+                    return True
+            return False
+        if run.weak and l.uid not in run.weak_created and name in ("add", "discard", "remove", "update", "clear", "pop"):
+            self.limit("mutation of a set under a loop with a run-time trip count", node)
+        if name in ("add", "discard", "remove", "update", "clear", "pop"):
+            run.emit("mutate", l, name, self.site(node))
+        if name == "add":
+            if not has(a[0]):
+                l.items.append(a[0])
+            return None
+        if name in ("discard", "remove"):
+            for i, y in enumerate(l.items):
+                if y is a[0] or (is_concrete(y) and is_concrete(a[0]) and type(y) is type(a[0]) and y == a[0]):
+                    del l.items[i]
+                    return None
+            if name == "remove":
+                self.throw_key(a[0], node)
+            return None
+        if name == "update":
+            for it in a:
+                for x in self.iterate_concrete(it, run, node):
+                    if not has(x):
+                        l.items.append(x)
+            return None
+        if name == "clear":
+            l.items.clear()
+            return None
+        if name == "copy":
+            return SetV(list(l.items), site=self.site(node))
+        self.limit(f"set method {name!r} is not modelled", node)
 
     def getitem(self, o, k, run, node):
         if isinstance(o, DictV):
